@@ -33,6 +33,7 @@ type fsModel struct {
 	steps      int
 	failed     bool
 	frozen     bool // mutations are violations (C11/C17: "without modifying any file")
+	env        *envState
 }
 
 func newFsModel() *fsModel {
@@ -42,12 +43,20 @@ func newFsModel() *fsModel {
 func (e *envState) fsm() *fsModel {
 	if e.fs == nil {
 		e.fs = newFsModel()
+		e.fs.env = e
 	}
 	return e.fs
 }
 
 // step accounts one mutating primitive; returns false if it must fail.
 func (f *fsModel) step(op, path string) bool {
+	// Tier C: a file-system primitive of a thread that holds no exclusive
+	// lock is a scheduling point (two calls under a shared lock may interleave
+	// their create / write / rename steps); under a write lock nobody else can
+	// be in the package's critical sections and the point is skipped
+	if e := f.env; e != nil && e.sched != nil && !e.holdsWriteLock() {
+		e.sched.yield(nil, "fs")
+	}
 	if f.crashAfter >= 0 && f.steps >= f.crashAfter {
 		panic(crashSignal{f.steps})
 	}
@@ -60,6 +69,16 @@ func (f *fsModel) step(op, path string) bool {
 	}
 	f.log = append(f.log, fsOp{op, path})
 	return true
+}
+
+func (e *envState) holdsWriteLock() bool {
+	t := e.sched.curT().id
+	for _, l := range e.locks {
+		if l.writer == t {
+			return true
+		}
+	}
+	return false
 }
 
 func (i *interpreter) pathErr(op, path, msg string, notExist bool) value {
